@@ -217,7 +217,17 @@ impl CodeFormatter {
                 if (token_type == prev_token_type && newline_if_same)
                     || (token_type != prev_token_type && newline_if_diff)
                 {
-                    self.push("\n");
+                    // We want an empty line here. The trivia in front of the token may contain newlines already, but when
+                    // the token is on the same line as the previous one it doesn't, so make sure there are two.
+                    let existing = self
+                        .chunks
+                        .iter()
+                        .rev()
+                        .take_while(|chunk| chunk.str == "\n")
+                        .count();
+                    for _ in existing.min(1)..2 {
+                        self.push("\n");
+                    }
                 }
             }
 
@@ -780,6 +790,9 @@ fn join_chunks(chunks: Vec<Chunk>, options: &FormattingOptions) -> String {
     let mut indent = None;
     let mut had_standalone_comment = false;
     let mut prev_newlines = 0;
+    // Does the current line hold nothing but labels? And did the previous line?
+    let mut only_labels = true;
+    let mut after_label_line = false;
 
     for (idx, chunk) in chunks.iter().enumerate() {
         if indent.is_none() {
@@ -788,6 +801,10 @@ fn join_chunks(chunks: Vec<Chunk>, options: &FormattingOptions) -> String {
 
         for str in chunk.str.split_inclusive('\n') {
             let mut ignore = false;
+
+            if !matches!(chunk.ty, Some(ChunkType::Label)) && str != "\n" {
+                only_labels = false;
+            }
 
             match chunk.ty {
                 Some(ChunkType::Label) => {
@@ -871,7 +888,10 @@ fn join_chunks(chunks: Vec<Chunk>, options: &FormattingOptions) -> String {
                     // We should only add empty lines if:
                     // - The previous line was not a standalone comment
                     // - We did not have more than 1 empty line already
-                    should_add = !had_standalone_comment && prev_newlines == 0;
+                    // - The previous line did not consist of labels only (the code they label follows right away, just
+                    //   like it would have been put on the same line if the labels had been short enough)
+                    should_add =
+                        !had_standalone_comment && prev_newlines == 0 && !after_label_line;
                     if should_add {
                         prev_newlines += 1;
                     }
@@ -903,6 +923,7 @@ fn join_chunks(chunks: Vec<Chunk>, options: &FormattingOptions) -> String {
                     }
                     prev_newlines = 0;
                     should_add = true;
+                    after_label_line = only_labels;
                 }
 
                 if should_add {
@@ -919,6 +940,7 @@ fn join_chunks(chunks: Vec<Chunk>, options: &FormattingOptions) -> String {
 
                 line = "".into();
                 indent = None;
+                only_labels = true;
             }
         }
     }
